@@ -259,6 +259,73 @@ func (g treeGen) tree() map[string]any {
 	return t
 }
 
+// attrDoc: one spelling of depends_on / networks / build, with its kind (for the distribution)
+func (g treeGen) attrDoc(attr string) (string, any) {
+	r := g.ctx.Rng
+	names := []string{"b", "c", "base", "x-y", "n.1"}
+	r.Shuffle(len(names), func(i, j int) { names[i], names[j] = names[j], names[i] })
+	names = names[:1+r.Intn(3)]
+	list := func() []any {
+		l := []any{}
+		for _, n := range names {
+			l = append(l, n)
+		}
+		return l
+	}
+	switch r.Intn(8) {
+	case 0:
+		return "null", nil
+	case 1:
+		return "malformed", g.pick(1, true, "str", 1.5, []any{"b", 1}, []any{nil}, map[string]any{"b": 1}, []any{[]any{"b"}})
+	}
+	switch attr {
+	case "depends_on":
+		switch r.Intn(4) {
+		case 0:
+			return "short", list()
+		case 1:
+			return "short-dup", append(list(), names[0])
+		case 2:
+			m := map[string]any{}
+			for _, n := range names {
+				m[n] = map[string]any{"condition": "service_started", "required": true}
+			}
+			return "long", m
+		}
+		m := map[string]any{}
+		for _, n := range names {
+			m[n] = g.pick(map[string]any{"condition": "service_healthy"}, map[string]any{"required": false}, map[string]any{}, map[string]any{"condition": "service_healthy", "restart": true, "required": true})
+		}
+		return "long-partial", m
+	case "networks":
+		switch r.Intn(4) {
+		case 0:
+			return "short", list()
+		case 1:
+			return "short-dup", append(list(), names[0])
+		case 2:
+			m := map[string]any{}
+			for _, n := range names {
+				m[n] = nil
+			}
+			return "long", m
+		}
+		m := map[string]any{}
+		for _, n := range names {
+			m[n] = g.pick(nil, map[string]any{"aliases": []any{"a1"}}, map[string]any{"priority": 3}, map[string]any{})
+		}
+		return "long-partial", m
+	}
+	switch r.Intn(3) {
+	case 0:
+		return "short", g.pick(".", "./ctx", "")
+	case 1:
+		return "long", map[string]any{"context": g.pick(".", "./ctx")}
+	}
+	return "long-more", g.pick(map[string]any{"dockerfile": "D"}, map[string]any{"context": ".", "args": g.pick([]any{"A=1"}, map[string]any{"A": "2", "B": nil})},
+		map[string]any{"context": "x", "ssh": g.pick([]any{"default"}, map[string]any{"k": "/p"})}, map[string]any{"secrets": []any{"s1"}, "labels": []any{"l=1"}}, map[string]any{})
+}
+
 // paths of all nodes of a tree (for the malformed stream: one node is replaced by a value of a random kind)
 func nodePaths(v any, cur []any, out *[][]any) {
 	*out = append(*out, append([]any(nil), cur...))
@@ -1003,6 +1070,16 @@ func runC03(ctx *core.Ctx) {
 			ctx.Count("canonical-malformed:" + kind)
 			ctx.Add("c03.canonical", map[string]any{"tree": core.EncodeVal(m), "ign": ign})
 		}
+	}
+
+	// 4b. the two-document pipeline at depends_on / networks / build: every pair of spellings (short, long, partial long,
+	// null, malformed) for the first and for the second document
+	for i := 0; i < ctx.Pick(1500, 30000); i++ {
+		attr := []string{"depends_on", "networks", "build"}[i%3]
+		k1, v1 := g.attrDoc(attr)
+		k2, v2 := g.attrDoc(attr)
+		ctx.Count("twodocs:" + attr + ":" + k1 + "+" + k2)
+		ctx.Add("c03.twoDocs", map[string]any{"attr": attr, "doc1": core.EncodeVal(v1), "doc2": core.EncodeVal(v2)})
 	}
 
 	// 5. decoders
